@@ -24,6 +24,7 @@
 #include <gmssl/x509_ext.h>
 #include <gmssl/x509.h>
 #include <gmssl/error.h>
+#include <gmssl/verif.h>
 
 
 const char *x509_version_name(int version)
@@ -1800,7 +1801,22 @@ int x509_certs_verify(const uint8_t *certs, size_t certslen, int certs_type,
 		return -1;
 	}
 
-	while (certslen) {
+	while (certslen)
+	VERIF_LOOP_ASSIGNS(certs, certslen, cacert, cacertlen, path_len_constraint, cert, certlen, path_len,
+		verif_c_chk_calls, verif_c_chk_type0, verif_c_chk_type1, verif_c_chk_nonca, verif_c_plc_ci, verif_c_chk_last, verif_c_chk_first, verif_c_chk_second,
+		verif_c_vfy_calls, verif_c_vfy_bad, verif_c_vfy_prev_parent)
+	VERIF_LOOP_INVARIANT(certslen <= VERIF_LOOP_ENTRY(certslen))
+	VERIF_LOOP_INVARIANT(certs == VERIF_LOOP_ENTRY(certs) + (VERIF_LOOP_ENTRY(certslen) - certslen))
+	VERIF_LOOP_INVARIANT(0 <= path_len && path_len <= depth + 1)
+	VERIF_LOOP_INVARIANT(verif_c_chk_calls == (unsigned)path_len + 1 && verif_c_vfy_calls == (unsigned)path_len)
+	VERIF_LOOP_INVARIANT(verif_c_chk_type0 == VERIF_LOOP_ENTRY(verif_c_chk_type0) && verif_c_chk_first == VERIF_LOOP_ENTRY(verif_c_chk_first))
+	VERIF_LOOP_INVARIANT(verif_c_chk_nonca == 0 && verif_c_vfy_bad == 0)
+	VERIF_LOOP_INVARIANT((size_t)cert == verif_c_chk_last && (path_len == 0 ? (size_t)cert == verif_c_chk_first : verif_c_vfy_prev_parent == (size_t)cert))
+	VERIF_LOOP_INVARIANT(VERIF_SAME_OBJECT(cert, certs) && certlen >= 2 && certlen <= 0x7fffffff && VERIF_OFFSET(cert) + certlen <= VERIF_OFFSET(certs))
+	VERIF_LOOP_INVARIANT(verif_c_ci < 1 || verif_c_ci >= verif_c_chk_calls || ((verif_c_ci != 1 || verif_c_plc_ci == 0)
+		&& (verif_c_plc_ci < 0 || (int)verif_c_ci - 1 <= verif_c_plc_ci) && (int)verif_c_ci - 1 <= depth))
+	VERIF_LOOP_DECREASES(certslen)
+	{
 
 		if (x509_cert_from_der(&cacert, &cacertlen, &certs, &certslen) != 1) {
 			error_print();
